@@ -2319,13 +2319,16 @@ void copy_api_from_app(
     scs_ptr->static_config.hme_level0_total_search_area_width = ((EbSvtAv1EncConfiguration*)config_struct)->hme_level0_total_search_area_width;
     scs_ptr->static_config.hme_level0_total_search_area_height = ((EbSvtAv1EncConfiguration*)config_struct)->hme_level0_total_search_area_height;
     scs_ptr->static_config.ext_block_flag = ((EbSvtAv1EncConfiguration*)config_struct)->ext_block_flag;
-    for (hme_region_index = 0; hme_region_index < scs_ptr->static_config.number_hme_search_region_in_width; ++hme_region_index) {
+    // the region counts are only validated later (verify_settings): never copy beyond the arrays
+    for (hme_region_index = 0; hme_region_index < scs_ptr->static_config.number_hme_search_region_in_width &&
+         hme_region_index < EB_HME_SEARCH_AREA_COLUMN_MAX_COUNT; ++hme_region_index) {
         scs_ptr->static_config.hme_level0_search_area_in_width_array[hme_region_index] = ((EbSvtAv1EncConfiguration*)config_struct)->hme_level0_search_area_in_width_array[hme_region_index];
         scs_ptr->static_config.hme_level1_search_area_in_width_array[hme_region_index] = ((EbSvtAv1EncConfiguration*)config_struct)->hme_level1_search_area_in_width_array[hme_region_index];
         scs_ptr->static_config.hme_level2_search_area_in_width_array[hme_region_index] = ((EbSvtAv1EncConfiguration*)config_struct)->hme_level2_search_area_in_width_array[hme_region_index];
     }
 
-    for (hme_region_index = 0; hme_region_index < scs_ptr->static_config.number_hme_search_region_in_height; ++hme_region_index) {
+    for (hme_region_index = 0; hme_region_index < scs_ptr->static_config.number_hme_search_region_in_height &&
+         hme_region_index < EB_HME_SEARCH_AREA_ROW_MAX_COUNT; ++hme_region_index) {
         scs_ptr->static_config.hme_level0_search_area_in_height_array[hme_region_index] = ((EbSvtAv1EncConfiguration*)config_struct)->hme_level0_search_area_in_height_array[hme_region_index];
         scs_ptr->static_config.hme_level1_search_area_in_height_array[hme_region_index] = ((EbSvtAv1EncConfiguration*)config_struct)->hme_level1_search_area_in_height_array[hme_region_index];
         scs_ptr->static_config.hme_level2_search_area_in_height_array[hme_region_index] = ((EbSvtAv1EncConfiguration*)config_struct)->hme_level2_search_area_in_height_array[hme_region_index];
@@ -2460,7 +2463,10 @@ void copy_api_from_app(
     scs_ptr->static_config.enable_manual_pred_struct    = config_struct->enable_manual_pred_struct;
     if(scs_ptr->static_config.enable_manual_pred_struct){
         scs_ptr->static_config.manual_pred_struct_entry_num = config_struct->manual_pred_struct_entry_num;
-        EB_MEMCPY(&scs_ptr->static_config.pred_struct[0], &config_struct->pred_struct[0],config_struct->manual_pred_struct_entry_num*sizeof(PredictionStructureConfigEntry));
+        // the entry number is only validated later (verify_settings): never copy beyond the array
+        if (config_struct->manual_pred_struct_entry_num > 0 &&
+            config_struct->manual_pred_struct_entry_num <= (1 << (MAX_HIERARCHICAL_LEVEL - 1)))
+            EB_MEMCPY(&scs_ptr->static_config.pred_struct[0], &config_struct->pred_struct[0],config_struct->manual_pred_struct_entry_num*sizeof(PredictionStructureConfigEntry));
         switch (scs_ptr->static_config.manual_pred_struct_entry_num) {
             case 1:
                 scs_ptr->static_config.hierarchical_levels =  0;
@@ -2500,7 +2506,7 @@ static int verify_hme_dimension(unsigned int index, unsigned int HmeLevel0Search
     uint32_t        i;
     uint32_t        total_search_width = 0;
 
-    for (i = 0; i < number_hme_search_region_in_width; i++)
+    for (i = 0; i < number_hme_search_region_in_width && i < EB_HME_SEARCH_AREA_ROW_MAX_COUNT; i++)
         total_search_width += number_hme_search_region_in_width_array[i];
     if ((total_search_width) != (HmeLevel0SearchAreaInWidth)) {
         SVT_LOG("Error Instance %u: Summed values of HME area does not equal the total area. \n", index);
@@ -2516,7 +2522,7 @@ static int verify_hme_dimension_l1_l2(unsigned int index, uint32_t number_hme_se
     uint32_t        i;
     uint32_t        total_search_width = 0;
 
-    for (i = 0; i < number_hme_search_region_in_width; i++)
+    for (i = 0; i < number_hme_search_region_in_width && i < EB_HME_SEARCH_AREA_ROW_MAX_COUNT; i++)
         total_search_width += number_hme_search_region_in_width_array[i];
     if ((total_search_width > 480) || (total_search_width == 0)) {
         SVT_LOG("Error Instance %u: Invalid HME Total Search Area. Must be [1 - 480].\n", index);
@@ -2990,8 +2996,13 @@ static EbErrorType verify_settings(
 
     // prediction structure
     if(config->enable_manual_pred_struct) {
-        if(config->manual_pred_struct_entry_num > (1<<(MAX_HIERARCHICAL_LEVEL-1))){
+        if(config->manual_pred_struct_entry_num > (1<<(MAX_HIERARCHICAL_LEVEL-1)) || config->manual_pred_struct_entry_num < 1){
             SVT_LOG("Error instance %u: Invalid manual prediction structure entry number [1 - 32], your input: %d\n", channel_number + 1, config->manual_pred_struct_entry_num);
+            return_error = EB_ErrorBadParameter;
+        }
+        else if(!PowerOfTwoCheck(config->manual_pred_struct_entry_num)){
+            // the entries replace the prediction structure of log2(entry number) hierarchical levels
+            SVT_LOG("Error instance %u: Invalid manual prediction structure entry number, the minigop size must be a power of two, your input: %d\n", channel_number + 1, config->manual_pred_struct_entry_num);
             return_error = EB_ErrorBadParameter;
         }
         else {
